@@ -1,4 +1,5 @@
 import NbioVerif.Model.WsTrunc
+import NbioVerif.Generated.WsFacts
 /-! `truncWriter`: specification of the chunked writer -/
 namespace Ws
 
@@ -63,5 +64,27 @@ theorem twWrites_spec : ∀ (cs : List Bytes) (w : Bytes), w.length ≤ 4 →
     · rw [i2, h2]
       simp only [List.length_append]
       omega
+
+/-- what the receiver hands to the inflater (`message ++ flateReaderTail`, the constant regenerated from the code) is the
+    sender's raw deflate stream — sync-flush marker `00 00 ff ff` included — followed by a final empty stored block:
+    `truncWriter` and `flateReaderTail` are inverse on every stream that ends with the marker, however it was chunked -/
+theorem trunc_tail (cs : List Bytes) (body : Bytes) (h : cs.flatten = body ++ [0, 0, 255, 255]) :
+    (twWrites [] cs).1 ++ Gen.flateReaderTail = cs.flatten ++ [1, 0, 0, 255, 255] := by
+  obtain ⟨h1, h2⟩ := twWrites_spec cs [] (by simp)
+  simp only [List.nil_append, List.length_nil, Nat.zero_add] at h1 h2
+  have hlen : cs.flatten.length = body.length + 4 := by rw [h]; simp
+  have h4 : (twWrites [] cs).2.length = 4 := by rw [h2, hlen]; omega
+  -- passed-on part = body, held-back part = the marker
+  have hsplit : (twWrites [] cs).1 ++ (twWrites [] cs).2 = body ++ [0, 0, 255, 255] := by rw [h1, h]
+  have hl1 : (twWrites [] cs).1.length = body.length := by
+    have := congrArg List.length hsplit
+    simp only [List.length_append, h4, List.length_cons, List.length_nil] at this
+    omega
+  have hb : (twWrites [] cs).1 = body := by
+    have := List.append_inj hsplit hl1
+    exact this.1
+  rw [hb, h]
+  have : Gen.flateReaderTail = [0, 0, 255, 255] ++ [1, 0, 0, 255, 255] := by decide
+  rw [this, List.append_assoc]
 
 end Ws
